@@ -397,6 +397,10 @@ int main(int argc, char** argv)
             std::uint64_t r = rng.below(100);
             pred = r < 45 ? 0 : r < 70 ? 1 : r < 85 ? 2 : 3;
             ty = (int) rng.below(8);
+#if defined(C11_WIDE_ONLY)
+            // fallback build for a source whose pool bulk does not compile for 8/16-bit shapes
+            ty = 4 + ty % 4;
+#endif
             int bits = tbits[ty];
             unsigned __int128 v = 0;
             switch (rng.below(7))
@@ -466,10 +470,12 @@ int main(int argc, char** argv)
         auto t0 = std::chrono::steady_clock::now();
         switch (ty)
         {
+#if !defined(C11_WIDE_ONLY)
         case 0: start_case<std::int8_t>(c, sched, pred, (std::int8_t) c->n, hintw); break;
         case 1: start_case<std::uint8_t>(c, sched, pred, (std::uint8_t) c->n, hintw); break;
         case 2: start_case<std::int16_t>(c, sched, pred, (std::int16_t) c->n, hintw); break;
         case 3: start_case<std::uint16_t>(c, sched, pred, (std::uint16_t) c->n, hintw); break;
+#endif
         case 4: start_case<std::int32_t>(c, sched, pred, (std::int32_t) c->n, hintw); break;
         case 5: start_case<std::uint32_t>(c, sched, pred, (std::uint32_t) c->n, hintw); break;
         case 6: start_case<std::int64_t>(c, sched, pred, (std::int64_t) c->n, hintw); break;
@@ -479,7 +485,8 @@ int main(int argc, char** argv)
         {
             std::unique_lock l(c->m);
             // generous: 30 s + 1 s per 2^24 calls
-            auto limit = std::chrono::seconds(c->mode == 0 ? 40 + (long) std::min<std::uint64_t>(c->n >> 25, 900) : 20);
+            // generous: ordinary cases take milliseconds; n calls of a cheap f for the huge non-throwing shapes
+            auto limit = std::chrono::seconds(c->mode == 0 && c->n > (1ull << 24) ? 40 + (long) std::min<std::uint64_t>(c->n >> 25, 900) : 12);
             done = c->cv.wait_for(l, limit, [&] { return c->completed.load(std::memory_order_acquire); });
         }
         double secs = std::chrono::duration<double>(std::chrono::steady_clock::now() - t0).count();
